@@ -149,6 +149,15 @@ pub fn sort(entry: u8, kind: u8, pc: usize, pr: usize, sc: usize, sr: usize, ec:
     run(kind, pc, pr, gm, cells, &s, false);
 }
 
+/// Few lines to sort (at most 4), each up to 65 cells long (buffer of 136 cells): the permutation is
+/// cheap, the per-line work (swaps along the line) runs over a long line.
+pub fn sort_long(entry: u8, kind: u8, pc: usize, pr: usize, sc: usize, sr: usize, ec: usize, er: usize, line: usize) {
+    let gm = geometry(kind, pc, pr, Pick::Fixed((sc, sr), (ec, er)));
+    let s = Sort { entry, line };
+    let cells = make_cells::<136, 4>(&s, pc, pr, &gm);
+    run(kind, pc, pr, gm, cells, &s, false);
+}
+
 /// As `sort`, for shapes with up to 18 lines (buffer of 72 cells): reaches code paths that only
 /// wide arrays take.
 pub fn sort_wide(entry: u8, kind: u8, pc: usize, pr: usize, sc: usize, sr: usize, ec: usize, er: usize, line: usize) {
